@@ -8,7 +8,7 @@
  "annotate": ["crypto/crypto_aesctr_aesni.c", "crypto/crypto_aesctr_shared.c"],
  "defines": ["VERIF_HALLOC", "C02_FIXED_OBJ", "CPUSUPPORT_X86_AESNI=1"],
  "matrix": {"BUFMODE": [2, 3]},
- "tier": "thorough",
+ "tier": "experimental",
  "models": ["models/x86_sse2.c"],
  "cflags": ["-msse2", "-maes"],
  "timeout": 1500, "thorough_timeout": 1500,
